@@ -11,7 +11,7 @@ for d in ${1:-/verif/seeded/*}; do
   pid=$(basename $d | cut -d- -f1)
   git -C $WT checkout -q -- . ; git -C $WT apply $d/patch.diff || { echo "$d: patch does not apply"; continue; }
   # the property's own check first, then the checks whose contracts cover neighbouring code of the same mechanism
-  case $pid in C19) rel="C19 C22";; C22) rel="C22 C19";; C37) rel="C37 C13";; C38) rel="C38 C12 C13";; C12) rel="C12 C38";; C13) rel="C13 C38 C37";; *) rel="$pid";; esac
+  case $pid in C19) rel="C19 C22";; C22) rel="C22 C19";; C37) rel="C37 C13";; C38) rel="C38 C12 C13";; C12) rel="C12 C38";; C13) rel="C13 C38 C37";; C02) rel="C02 C01";; C01) rel="C01 C02";; C03) rel="C03 C05";; C05) rel="C05 C03";; *) rel="$pid";; esac
   : > $d/detect.log
   for chk in $rel; do
     s=$(date +%s)
